@@ -49,6 +49,11 @@ type Case struct {
 	Docs      []string `json:"docs,omitempty"`
 	Via       []string `json:"via,omitempty"`
 	LoadFirst bool     `json:"load_first,omitempty"`
+	// kind "life" (life_test.go): one renderer over a mutable content FS (Store "memfs", "dirfs" or
+	// "dirfs-symlink"); Init is the state of the user templates at the first render, every step
+	// changes some of them (name -> "marker", "empty" or "default" = file removed) before the next render
+	Init  map[string]string   `json:"init,omitempty"`
+	Steps []map[string]string `json:"steps,omitempty"`
 	// kind "after" (after_test.go): the main document Src is rendered on one renderer (Path "load":
 	// one loaded Document) first into a writer that fails after FailAt-1 bytes (0 = not), then Repeat
 	// renders of a document needing the user template FailT, which cannot be rendered, then normally
@@ -95,7 +100,8 @@ func renderVuegoStore(src []byte, files map[string]string, store string, late bo
 	if files == nil {
 		md = markdown.New(nil)
 	} else {
-		u := newStore(store)
+		u, cleanup := newStore(store)
+		defer cleanup()
 		var after []string
 		for _, k := range sortedKeys(files) {
 			if late && strings.HasPrefix(k, "markdown/") {
@@ -248,13 +254,30 @@ var configKeys = map[string][]string{
 	"row": {"r", "[]"}, "headers": {"[x]", "[{align: right, content: H}]"}, "rows": {"[[y]]"}, "html": {"\"<i>h</i>\""}, "text": {"TXT"},
 }
 
+var siteFiles = map[string]string{
+	"layouts/base.vuego":     "<html><head><title>{{ title }}</title></head><body><header>SITE</header><main v-html=\"content\"></main><footer>FOOT</footer></body></html>\n",
+	"layouts/post.vuego":     "---\nlayout: base\n---\n<article class=\"post\" v-html=\"content\"></article>\n",
+	"layouts/default.vuego":  "<div class=\"default-layout\" v-html=\"content\"></div>\n",
+	"components/card.vuego":  "<template><div class=\"card\"><slot></slot></div></template>\n",
+	"components/p.vuego":     "<template><p class=\"component\">COMPONENT</p></template>\n",
+	"index.vuego":            "---\nlayout: post\ntitle: Home\n---\n<h1>{{ title }}</h1>\n",
+	"paragraph.vuego":        "<p>ROOT LEVEL FILE, NOT A MARKDOWN TEMPLATE</p>\n",
+	"partials/heading.vuego": "<h1>PARTIAL</h1>\n",
+}
+
+var siteFileNames = func() []string {
+	var l []string
+	for k := range siteFiles {
+		l = append(l, k)
+	}
+	sort.Strings(l)
+	return l
+}()
+
 func genConfig(t *rapid.T) map[string]string {
 	mode := rapid.IntRange(0, 7).Draw(t, "config")
 	if mode <= 3 {
 		return nil // no content filesystem / only the templates
-	}
-	if mode == 4 {
-		return map[string]string{"unrelated.txt": "x"}
 	}
 	names := make([]string, 0, len(configKeys))
 	for k := range configKeys {
@@ -271,7 +294,14 @@ func genConfig(t *rapid.T) map[string]string {
 		}
 		return sb.String()
 	}
-	files := map[string]string{}
+	files := map[string]string{"unrelated.txt": "x"}
+	// a site directory shared with vuego pages: layouts (layouts/base.vuego is vuego's default page
+	// layout), components, pages. None of them takes part in rendering a Markdown document.
+	if rapid.IntRange(0, 1).Draw(t, "site") == 1 {
+		for _, f := range rapid.SliceOfNDistinct(rapid.SampledFrom(siteFileNames), 1, len(siteFileNames), func(s string) string { return s }).Draw(t, "siteFiles") {
+			files[f] = siteFiles[f]
+		}
+	}
 	if mode == 5 || mode == 7 {
 		files["theme.yml"] = yml("t")
 	}
@@ -293,6 +323,15 @@ func configClasses(c Case) []string {
 	collide := false
 	for k, v := range c.Files {
 		switch {
+		case strings.HasPrefix(k, "layouts/"):
+			cls = append(cls, "site:layouts/*.vuego")
+			if k == "layouts/base.vuego" {
+				cls = append(cls, "site:layouts/base.vuego")
+			}
+			continue
+		case strings.HasPrefix(k, "components/"), strings.HasSuffix(k, ".vuego"):
+			cls = append(cls, "site:components-or-pages")
+			continue
 		case k == "theme.yml":
 			cls = append(cls, "config:theme.yml")
 		case strings.HasPrefix(k, "data/"):
@@ -305,6 +344,7 @@ func configClasses(c Case) []string {
 		}
 	}
 	sort.Strings(cls)
+	cls = dedup(cls)
 	if len(cls) == 0 {
 		cls = []string{"config:unrelated-files-only"}
 	}
@@ -360,6 +400,22 @@ var replacement = map[string]string{
 		"<tbody>\n<tr v-for=\"row in rows\">\n<td v-for=\"cell in row\" :align=\"cell.align\" v-html=\"cell.content\"></td>\n</tr>\n</tbody>\n</table>",
 	"task_checkbox":  "<input data-ov=\"task_checkbox\" type=\"checkbox\" v-if=\"checked\" checked=\"\" disabled=\"\">\n<input data-ov=\"task_checkbox\" type=\"checkbox\" v-else disabled=\"\">",
 	"thematic_break": `<hr data-ov="thematic_break">`,
+}
+
+// overrideExpectation computes, without vuego, what a document must render to when the templates in
+// set are the marker templates and those in empty are files without content. skip is true when the
+// document cannot be judged (open finding region after the removal, unattributable <a>).
+func overrideExpectation(src []byte, set, empty map[string]bool) (want string, skip bool) {
+	drop := dropKinds(empty)
+	bracketed, err := refHTMLBracketed(src, set["raw_html"], drop)
+	if err != nil {
+		return "", true
+	}
+	if len(drop) > 0 && isOpen(fLinkTextTrim) && linkPadded(src, drop) {
+		return "", true
+	}
+	want, ok := markRef(bracketed, set, aKindsOf(src, drop), empty["hard_break"])
+	return want, !ok
 }
 
 func checkOverride(c Case, st *stats) error {
@@ -761,6 +817,8 @@ func replay(kind string, raw json.RawMessage) error {
 	switch {
 	case strings.HasPrefix(kind, "bytes"), strings.HasPrefix(kind, "Fuzz"):
 		return run.Decode(raw, checkBytes)
+	case strings.HasPrefix(kind, "life"):
+		return run.Decode(raw, func(c Case) error { return checkLife(c, nil) })
 	case strings.HasPrefix(kind, "after"):
 		return run.Decode(raw, func(c Case) error { return checkAfter(c, nil) })
 	case strings.HasPrefix(kind, "front"):
@@ -1041,6 +1099,9 @@ func TestProp(t *testing.T) {
 
 	// (4) histories: several documents on one Markdown instance, sharing link reference labels
 	run.Rapid(t, rec, "session", genSession(rec), classifySession, func(c Case) error { return checkSession(c, st) })
+
+	// (4') one long-lived renderer while user templates are added, edited and removed
+	run.Rapid(t, rec, "life", genLife(rec), classifyLife, func(c Case) error { return checkLife(c, st) })
 
 	// (4a) what a failed or aborted render leaves behind
 	run.Rapid(t, rec, "after", genAfter(rec), classifyAfter, func(c Case) error { return checkAfter(c, st) })
